@@ -85,9 +85,16 @@ TbEq == /\ TbCall("eq")
                         [def |-> E.id, a |-> tbl[e.from], b |-> tbl[e.h], eq |-> e.res, same_hash |-> e.v])
         /\ UNCHANGED <<tbl, lost>> /\ Keep
 TbDefault == Construct("default", LAMBDA e : TFilled(Len(EN), 0))
+\* default() on a table of shared handles (Rc<Cell<u8>>): row w = the slots read after 5 was stored through slot w's handle.
+\* Every slot holds its own default, so the change shows in slot w only (the frame condition, for values with interior state)
+TbAlias == /\ IsEvent("tbalias")
+           /\ LET e == Rec[l] IN
+              Require(e.def = E.id /\ e.rows = [w \in 1..Len(EN) |-> [p \in 1..Len(EN) |-> IF p = w THEN 5 ELSE 0]], l,
+                      "default(): slots share one value", [def |-> E.id, rows |-> e.rows])
+           /\ UNCHANGED <<tbl, lost>> /\ Keep
 Panicked == /\ IsEvent("panic")
             /\ Mismatch(l, "panic in generated code", [def |-> Rec[l].def, msg |-> Rec[l].msg])
             /\ UNCHANGED <<tbl, lost>> /\ Keep
-Next == Panicked \/ TbEq \/ LoadDef \/ TbNew \/ TbFilled \/ TbClosure \/ TbTransform \/ TbWrite \/ TbRead \/ TbDisabled \/ TbAll \/ TbAllOk \/ TbClone \/ TbDefault
+Next == Panicked \/ TbAlias \/ TbEq \/ LoadDef \/ TbNew \/ TbFilled \/ TbClosure \/ TbTransform \/ TbWrite \/ TbRead \/ TbDisabled \/ TbAll \/ TbAllOk \/ TbClone \/ TbDefault
 Spec == Init /\ [][Next]_vars
 =============================================================================
